@@ -16,7 +16,7 @@ ENGINES = {
 CHECKS = {
  "C05": ("E1", "model_checking",
    "stateless model checking (iterative deviation-bounded DFS over all schedules of the real code)",
-   "Every interleaving of task polls, reply arrivals (all permutations), send stalls, flush stalls and artificial yields inside the critical sections of Session::rpc/recv is executed on the real netconf::Session, for 2-5 pipelined requests in three future placements, plus sends that fail before or after their bytes were delivered, up to the reported deviation bound (2- and 3-request cases to exhaustion in the thorough tier), plus deep pipelines (33-130 requests outstanding before any reply is collected; on the real TLS / SSH / JunosLocal transports up to 300, thorough 1000); each execution is checked for message-id uniqueness, own-reply delivery, absence of lost wake-ups/deadlocks and a usable session afterwards.",
+   "Every interleaving of task polls, reply arrivals (all permutations), send stalls, flush stalls and artificial yields inside the critical sections of Session::rpc/recv is executed on the real netconf::Session, for 2-5 pipelined requests in three future placements, plus sends that fail before or after their bytes were delivered, up to the reported deviation bound (2- and 3-request cases to exhaustion in the thorough tier), plus deep pipelines (33-130 requests outstanding before any reply is collected; on the real TLS / SSH / JunosLocal transports up to 300, thorough 1000); each execution is checked for message-id uniqueness, own-reply delivery, absence of lost wake-ups/deadlocks and a usable session afterwards. Replies received before the end of the stream (every answered subset of 2-3 requests, every arrival order, every await order) must reach their owners.",
    "tokio::sync::Mutex and the hand-written executor are trusted; transport queues are unbounded; preemption between two non-awaiting statements inside one section is not explored.", "DESIGN.md §2 E1"),
  "C18": ("E1", "model_checking",
    "stateless model checking (deviation-bounded DFS over schedules including future-drop actions)",
@@ -36,7 +36,7 @@ CHECKS = {
    "Plan level (E2) plus the evaluation stage against a fake IRRd (E5): unknown as-set and D/E/F answers to the as-set query must make the evaluation fail, never yield a smaller set (also error answers to route queries, unknown route-sets / filter-sets, constructs that cannot be evaluated, reference loops); an end-to-end slice resets the IRRd connection mid-run with literal-prefix policies installed (nothing may be deleted, in every evaluation order); the foreign-installed-states sweep of C02 applies its C03 clauses too; same trusted base as C01.", "DESIGN.md §2 E2"),
  "C16": ("E2", "exploration",
    "bounded-exhaustive enumeration of generated running configurations against an independent selection rule",
-   "Product of comment kinds x active attribute forms x extra/duplicate attributes x all attribute orders x statement bodies x names (incl. XML metacharacters), every single statement and every ordered pair of a representative subset, through the agent's real candidate reader; annotations folded over several lines; hand-built documents that vary where the jcmd namespace is declared, which prefix it is bound to, and jcmd:active on the elements around and inside the statement; an end-to-end slice in which the fake Junos applies the agent's own get-config subtree filter (RFC 6241 s.6.2).",
+   "Product of comment kinds x active attribute forms x extra/duplicate attributes x all attribute orders x statement bodies x names (incl. XML metacharacters), every single statement and every ordered pair of a representative subset, through the agent's real candidate reader; annotations folded over several lines; statements without a name next to managed ones; hand-built documents that vary where the jcmd namespace is declared, which prefix it is bound to, and jcmd:active on the elements around and inside the statement; an end-to-end slice in which the fake Junos applies the agent's own get-config subtree filter (RFC 6241 s.6.2).",
    "The rpsl crate's parser defines 'parseable expression'.", "DESIGN.md §2 E2 (C16 sweep)"),
  "C08": ("E3", "exploration",
    "bounded-exhaustive enumeration of the reply grammar through the real session (all child sequences up to a length bound)",
@@ -60,7 +60,7 @@ CHECKS = {
    "The value of <get> is the raw <data> content by design, so only acceptance is compared there.", "DESIGN.md §2 E3 C13"),
  "C14": ("E3", "exploration",
    "exhaustive one-edit mutation neighbourhoods (every offset / element / attribute / numeric field) of seed messages under a per-case watchdog",
-   "Every truncation, every substitution of 8 hostile bytes at every offset, every element/attribute deletion, duplication and sibling swap, every numeric field replaced by 10 hostile values, prefix/suffix splices of 21 seed messages, and annotations with deeply nested parentheses are delivered as the hello, as the reply to one of two outstanding requests, or as a get-config reply to the agent's readers: no panic (catch_unwind), every future resolves within a poll budget and a 10 s watchdog, and the other outstanding request still receives its own reply; in a second variant unattributable garbage arrives after both replies (late) and a follow-up request must still succeed; in a third the connection stays open after a mutated complete frame, so that only the message itself can end the wait of the call it answers.",
+   "Every truncation, every substitution of 8 hostile bytes at every offset, every element/attribute deletion, duplication and sibling swap, every numeric field replaced by 10 hostile values, prefix/suffix splices of 21 seed messages, and annotations with deeply nested parentheses are delivered as the hello, as the reply to one of two outstanding requests, or as a get-config reply to the agent's readers: no panic (catch_unwind), every future resolves within a poll budget and a 10 s watchdog, and the other outstanding request still receives its own reply; in a second variant unattributable garbage arrives after both replies (late) and a follow-up request must still succeed; in a third the connection stays open after a mutated complete frame, so that only the message itself can end the wait of the call it answers. A foreign element nested 100000 deep is inserted at a spread of element positions of every seed message and delivered in a child process whose death (stack exhaustion) is a verdict.",
    "One- and two-edit neighbourhoods of a finite seed set, not all byte strings; an abort (allocation failure, stack exhaustion) would be a machinery failure.", "DESIGN.md §2 E3 C14"),
  "C19": ("E7", "model_checking",
    "exhaustive exploration of outcome sequences x periods x signal plans of the real daemon loop in virtual time",
